@@ -127,6 +127,18 @@ def run(ctx, res):
                 'poms': [{'preds': [tmx('const', EXN + 'p/p')], 'objs': [{'m': ctx.rng.choice([tmx('templ', EXN + 'o/{v}'), tmx('ref', 'v')]), 'lang': None, 'dt': None, 'joins': []}], 'graphs': g}]}]
         cases.append({'cfg': {'nquads': True, 'mode': ctx.rng.choice(['NO', 'PARTIAL-AGGREGATIONS', 'MAXIMAL']), 'safe': ctx.rng.choice([':/', '/', '-._~:', ':/?#']), 'printable': False},
                       'sources': [{'key': 'S0', 'kind': 'csv', 'cols': ['id', 'v', 'w'], 'rows': rows}], 'doc': doc})
+    # na_values are compared with the text of the cell whatever type the source delivers it in (integers of a database or of JSON numbers)
+    for _ in range(ctx.scale(10, 80)):
+        kind = ctx.rng.choice(['sqltable', 'sqlquery', 'json', 'parquet'])
+        ints = [7, 10, -999, 5, 0, 42]
+        rows = [[str(i + 1), ['i', ctx.rng.choice(ints)], ['i', ctx.rng.choice(ints)]] for i in range(ctx.rng.choice([2, 3, 5]))]
+        src = {'key': 'S0', 'kind': kind, 'cols': ['id', 'n', 'm'], 'rows': rows}
+        if kind in ('sqltable', 'sqlquery'):
+            src['types'] = ['TEXT', 'INTEGER', 'INTEGER']
+        doc = [{'id': EXN + 'tm/T', 'src': 'S0', 'nonasserted': False, 'subj': tmx('templ', EXN + 'r/{id}'), 'sjoins': [], 'classes': [], 'sgraphs': [],
+                'poms': [{'preds': [tmx('const', EXN + 'p/n')], 'objs': [{'m': tmx('ref', 'n'), 'lang': None, 'dt': None, 'joins': []}], 'graphs': []},
+                         {'preds': [tmx('const', EXN + 'p/m')], 'objs': [{'m': tmx('templ', EXN + 'o/{m}'), 'lang': None, 'dt': None, 'joins': []}], 'graphs': []}]}]
+        cases.append({'cfg': {'nquads': False, 'mode': 'NO', 'na': ctx.rng.choice([['-999'], ['-999', '7'], ['0', '42', ''], ['10']]), 'safe': '', 'printable': False}, 'sources': [src], 'doc': doc})
     for rec in batch.run(cases):
         family.judge(res, rec, known)
     # file named by the mapping vs by the file_path option
